@@ -41,6 +41,7 @@ class Explorer(object):
         self.decided = {}
         self._keep = []
         self.unknown_feasibility = 0
+        self.path_unknown = 0
 
     def assume(self, e):
         self.assumes.append(e)
@@ -56,12 +57,43 @@ class Explorer(object):
         r = str(s.check())
         self.solver_s += time.time() - t
         self.queries += 1
+        if r == 'unknown' and not state.S.trans:
+            # second opinion from the nlsat tactic (no uninterpreted functions in play): decides most products of a symbol with its reciprocal
+            try:
+                s2 = z3.Then('simplify', 'purify-arith', 'qfnra-nlsat').solver()
+                s2.set('timeout', self.timeout_ms)
+                s2.add(*self.assumes)
+                s2.add(*self.pc)
+                s2.add(*state.S.axioms)
+                s2.add(extra)
+                t = time.time()
+                r2 = str(s2.check())
+                self.solver_s += time.time() - t
+                if r2 in ('sat', 'unsat'):
+                    r = r2
+            except Exception:
+                pass
         if r == 'unknown':
+            self.path_unknown += 1
             # over-approximation: explore the branch.  Obligations on the path are implications from the path
             # condition, so an infeasible path can only make them vacuous, never wrong.
             self.unknown_feasibility += 1
             return True
         return r == 'sat'
+
+    def _infeasible(self):
+        for tac in (None, ('simplify', 'purify-arith', 'qfnra-nlsat')):
+            try:
+                s = z3.Solver() if tac is None else z3.Then(*tac).solver()
+                s.set('timeout', 4 * self.timeout_ms)
+                s.add(*self.assumes)
+                s.add(*self.pc)
+                s.add(*state.S.axioms)
+                if str(s.check()) == 'unsat':
+                    return True
+            except Exception:
+                pass
+        return False
 
     def decide(self, cond):
         cond = z3.simplify(cond)
@@ -108,11 +140,17 @@ class Explorer(object):
             self._keep = []
             state.reset()
             state.S.explorer = self
+            self.path_unknown = 0
             try:
                 r = fn()
                 results.append(Path(list(self.prefix[:self.pos]), list(self.pc), list(self.assumes), r))
             except Abort:
                 pass
+            except Exception:
+                # an exception on a path that was entered although its feasibility could not be decided: if the path condition is in fact
+                # unsatisfiable the path does not exist (e.g. "no singular value passes the relative cut") -- otherwise it is the code's exception
+                if not (self.path_unknown and self._infeasible()):
+                    raise
             finally:
                 state.S.explorer = None
             if len(results) > self.cap:
